@@ -190,6 +190,19 @@ impl Curve {
         self.min_distance.len()
     }
 
+    // The number of jobs that can arrive in an interval whose length is
+    // the largest known distance: n jobs fit only if their minimum
+    // distance is strictly less than the interval length, so trailing
+    // entries equal to the largest known distance do not count.
+    fn jobs_fitting_largest_known_distance(&self) -> usize {
+        let largest = self.largest_known_distance();
+        1 + self
+            .min_distance
+            .iter()
+            .take_while(|dist| **dist < largest)
+            .count()
+    }
+
     // note: does not extrapolate
     fn lookup_arrivals(&self, delta: Duration) -> usize {
         // TODO: for really large vectors, this should be a binary search...
@@ -237,7 +250,7 @@ impl ArrivalBound for Curve {
         if delta.is_non_zero() {
             // first, resolve long delta by super-additivity of arrival curves
             let prefix = delta / self.largest_known_distance();
-            let prefix_jobs = prefix as usize * self.jobs_in_largest_known_distance();
+            let prefix_jobs = prefix as usize * self.jobs_fitting_largest_known_distance();
             let tail = delta % self.largest_known_distance();
             if tail > self.min_job_separation() {
                 prefix_jobs + self.lookup_arrivals(tail) as usize
